@@ -320,3 +320,8 @@ def run(ctx):
     # watermark is enough: any table written after the clear keeps it above the clear's seqno.)
     replay_guard(ctx, "R-C04.5", kinds=("items",), monotone=True)
     replay_guard(ctx, "R-C04.5", kinds=("clears",))
+
+    # ---- R-C04.7 what a single write journals is what it applies: replay applies by the JOURNALED kind, so a write that
+    # journals one kind of tombstone and applies another answers differently after a reopen (shared with R-C01.1)
+    from . import C01
+    C01.journal_kind_rules(ctx, "R-C04.7")
